@@ -79,6 +79,13 @@ def build_inputs(ctx, res):
                 continue
             per_model.append((m, rs))
             inputs.append(("corpus:%s#%d" % (name, m), rs, m))
+            if m == models[0] and len(models) > 1:
+                # the reader asked for a model the file does not have (it falls back to the first one); the result is
+                # annotated without a model argument, as the tools do
+                try:
+                    inputs.append(("reader-absent-model:%s" % name, G.load(name, max(models) + 1).residues, None))
+                except Exception:  # noqa: BLE001
+                    pass
             if m == models[0]:
                 inputs.append(("corpus-nomodel:%s" % name, rs, None))
                 try:
@@ -119,6 +126,22 @@ def build_inputs(ctx, res):
                 parts.append((m + 1, sub))
             if len(parts) == 2:
                 inputs.append(("multimodel:%s" % name, parts, "multi"))
+                if small:
+                    # the same two models written to a file and read back with a model number the file does not have
+                    # (the reader falls back to the first model); annotated without a model argument, as the tools do
+                    from gen import g3
+                    from rnapolis.parser import read_3d_structure
+                    fd, tmp = tempfile.mkstemp(suffix=".cif")
+                    os.close(fd)
+                    try:
+                        g3.write_cif(g3.mk_structure([r for _, part in parts for r in part]), tmp)
+                        with open(tmp) as f:
+                            got = read_3d_structure(f, max(q for q, _ in parts) + 5)
+                        inputs.append(("reader-absent-model:%s" % name, list(got.residues), None))
+                    except Exception:  # noqa: BLE001
+                        res.count("reader-absent-model:not-built")
+                    finally:
+                        os.unlink(tmp)
     for tag, rs in G.placements(rng, templates, ctx.pick(200, 10000)):
         inputs.append(("place:" + tag.split(":")[0].rstrip("+-.0123456789e"), rs, None))
     # base donor ... phosphate / ribose oxygen contacts of the corpus with the oxygen moved to 4.0 A +- delta from the
